@@ -363,3 +363,7 @@ func VerifC06UUIDChanged() {
 	}
 	rt.Reach("end")
 }
+
+// VerifC06Yielded: the EstablishLinkWithPeer values a watching request holds are, at quiescence after
+// every link event, exactly the live links to the requested peer: a lost link is not reported again.
+func VerifC06Yielded() { c04Resolve(true) }
